@@ -225,6 +225,8 @@ func (e *Engine) structsUsed(text string) map[string]bool {
 	return used
 }
 
+var noSlice = os.Getenv("GOVC_NOSLICE") != ""
+
 const anywfDef = `(define-fun anywf ((x Any) (w Int)) Bool (and
  (=> ((_ is a_map) x) (and (>= (a_m x) 1) (<= (a_m x) w)))
  (=> ((_ is a_mapaa) x) (and (>= (a_maa x) 0) (<= (a_maa x) w)))
@@ -235,22 +237,46 @@ const anywfDef = `(define-fun anywf ((x Any) (w Int)) Bool (and
 // script assembles the SMT-LIB text for one obligation (negated goal) or a cover query.
 func (c *FnCtx) script(o *Obligation, cover bool, coverBlock int, coverGuard string) string {
 	var body strings.Builder
-	for _, d := range c.decls {
-		body.WriteString(d)
-		body.WriteByte('\n')
-	}
 	blk, seq := coverBlock, 1<<30
 	if o != nil {
 		blk, seq = o.Block, o.Seq
 	}
 	anc := c.anc[blk]
-	for _, f := range c.facts {
+	var cands []int
+	for i, f := range c.facts {
 		if f.Block == -1 || anc[f.Block] || (f.Block == blk && f.Seq < seq) {
-			body.WriteString("(assert ")
-			body.WriteString(f.Text)
-			body.WriteString(")\n")
+			cands = append(cands, i)
 		}
 	}
+	if o != nil && !noSlice {
+		cands = c.coneOfInfluence(cands, o.Guard+" "+o.Cond)
+	}
+	// declarations: only symbols that occur
+	var fb strings.Builder
+	for _, i := range cands {
+		fb.WriteString("(assert ")
+		fb.WriteString(c.facts[i].Text)
+		fb.WriteString(")\n")
+	}
+	goal := ""
+	if o != nil {
+		goal = o.Guard + " " + o.Cond
+	} else {
+		goal = coverGuard
+	}
+	used := map[string]bool{}
+	for _, s := range smtSymbols(fb.String() + " " + goal) {
+		used[s] = true
+	}
+	for _, d := range c.decls {
+		// (declare-const name sort) / (declare-fun name ...)
+		fs := strings.Fields(d)
+		if len(fs) >= 2 && (used[fs[1]] || noSlice) {
+			body.WriteString(d)
+			body.WriteByte('\n')
+		}
+	}
+	body.WriteString(fb.String())
 	if o != nil {
 		fmt.Fprintf(&body, "(assert %s)\n(assert (not %s))\n", o.Guard, o.Cond)
 	} else {
